@@ -1,6 +1,6 @@
 (* C14 -- the stateful interface: removing the warm-up afterwards with Samples.burnthin(Nb) leaves exactly the states
    recorded by the sampling call. *)
-From CV Require Import Base.Tac Base.Cmp Model.C19_Stats Model.C14_Chain Model.C14_Burn Proofs.C14_Chain.
+From CV Require Import Base.Tac Base.Cmp Model.C14_Chain Model.C14_Burn Proofs.C14_Chain.
 
 Lemma stride_aux_0 {A} (l : list A) : stride_aux 0 0 l = l.
 Proof. induction l as [|x l IH]; [reflexivity|]. cbn. rewrite IH. reflexivity. Qed.
